@@ -205,9 +205,12 @@ static void fiber_event_wake_sleepers(fiber_manager_t* manager,
     do {
       assert(to_wake->waiter);
       fiber_t* const to_schedule = (fiber_t*)to_wake->waiter;
+      // to_wake lives on the stack of the sleeping fiber: once that fiber is
+      // scheduled it may run on another thread and reuse the memory
+      waiter_el_t* const next = to_wake->next;
       to_schedule->state = FIBER_STATE_READY;
       fiber_manager_schedule(manager, to_schedule);
-      to_wake = to_wake->next;
+      to_wake = next;
     } while (to_wake);
   }
 
